@@ -43,6 +43,10 @@ def normalize(geom):
     g = re_compl_cell.sub(r' ^(\1)', g)
     g = re_compl_surf.sub(r' _(', g)
 
+    # the blank added before a complement operator must not separate it from
+    # a preceding ':' operator
+    g = re_union.sub(':', g)
+
     # remove spaces after '(' and before ')'
     g = re_pareno.sub('(', g)
     g = re_parenc.sub(')', g)
